@@ -816,13 +816,17 @@ func returnsOf(fn *ssa.Function) []*ssa.Return {
 }
 
 // hasRecoveringDefer: some deferred closure of fn calls the builtin recover.
-func hasRecoveringDefer(fn *ssa.Function) bool {
-	found := false
+func hasRecoveringDefer(fn *ssa.Function) bool { return len(recoveringDefers(fn)) > 0 }
+
+// recoveringDefers: the defer statements of fn whose (first-party) target calls recover() directly.
+func recoveringDefers(fn *ssa.Function) []*ssa.Defer {
+	var out []*ssa.Defer
 	eachInstr(fn, func(in ssa.Instruction) {
 		d, ok := in.(*ssa.Defer)
 		if !ok {
 			return
 		}
+		found := false
 		var target *ssa.Function
 		switch v := d.Call.Value.(type) {
 		case *ssa.MakeClosure:
@@ -840,8 +844,11 @@ func hasRecoveringDefer(fn *ssa.Function) bool {
 				}
 			}
 		})
+		if found {
+			out = append(out, d)
+		}
 	})
-	return found
+	return out
 }
 
 // ---------------------------------------------------------------------------
